@@ -38,6 +38,38 @@ pub struct Case {
     /// row permutation for the metamorphic check (rotation + reversal flag)
     pub perm_rot: u8,
     pub perm_rev: bool,
+    /// memory layout of the views handed to the solver: 0 row-major, 1 column-major (a transposed
+    /// view, as numpy's A.T arrives), 2 strided (every second column / entry of a wider buffer)
+    #[serde(default)]
+    pub layout: u8,
+}
+
+fn lay2<T: Clone>(a: &Array2<T>, layout: u8) -> Array2<T> {
+    let (r, c) = a.dim();
+    match layout % 3 {
+        0 => a.clone(),
+        1 => Array2::from_shape_fn((c, r), |(j, i)| a[[i, j]].clone()),
+        _ => Array2::from_shape_fn((r, 2 * c), |(i, j)| a[[i, j / 2]].clone()),
+    }
+}
+fn view2<T>(h: &Array2<T>, layout: u8) -> ndarray::ArrayView2<'_, T> {
+    match layout % 3 {
+        0 => h.view(),
+        1 => h.t(),
+        _ => h.slice(ndarray::s![.., ..;2]),
+    }
+}
+fn lay1<T: Clone>(b: &Array1<T>, layout: u8) -> Array1<T> {
+    match layout % 3 {
+        2 => Array1::from_shape_fn(2 * b.len(), |i| b[i / 2].clone()),
+        _ => b.clone(),
+    }
+}
+fn view1<T>(h: &Array1<T>, layout: u8) -> ndarray::ArrayView1<'_, T> {
+    match layout % 3 {
+        2 => h.slice(ndarray::s![..;2]),
+        _ => h.view(),
+    }
 }
 
 pub struct C13;
@@ -200,9 +232,9 @@ fn case_strategy() -> impl Strategy<Value = Case> {
         proptest::collection::vec(-3.0f64..3.0, 12),
         proptest::collection::vec(deriv(), 12 * 8),
         proptest::collection::vec(deriv(), 12),
-        (any::<u8>(), any::<bool>(), prop::bool::weighted(0.3)),
+        (any::<u8>(), any::<bool>(), prop::bool::weighted(0.3), prop::sample::select(vec![0u8, 0, 1, 1, 2])),
     )
-        .prop_map(|(mode, n, extra, l, u, d, pseed, xrows, b, da, db, (perm_rot, perm_rev, identity_l))| {
+        .prop_map(|(mode, n, extra, l, u, d, pseed, xrows, b, da, db, (perm_rot, perm_rev, identity_l, layout))| {
             let cols = if extra > 0 { n.min(6) } else { n };
             let rows = cols + extra;
             let lsq = extra > 0;
@@ -241,6 +273,7 @@ fn case_strategy() -> impl Strategy<Value = Case> {
                 db: db[..rows].to_vec(),
                 perm_rot,
                 perm_rev,
+                layout,
             }
         })
 }
@@ -395,17 +428,21 @@ impl Case {
         let av = |f: &dyn Fn(usize, usize) -> f64| -> Array2<f64> { Array2::from_shape_fn((r, c), |(i, j)| f(order[i], j)) };
         let a_f = av(&|i, j| self.a[i * c + j].0);
         let b_f = Array1::from_shape_fn(r, |i| self.b[order[i]].0);
+        let l = self.layout % 3;
+        let (ha_f, hb_f) = (lay2(&a_f, l), lay1(&b_f, l));
         match self.mode % 8 {
-            0 => sol_from_f64(&dsolve(&a_f.view(), &b_f.view(), self.lsq)),
+            0 => sol_from_f64(&dsolve(&view2(&ha_f, l), &view1(&hb_f, l), self.lsq)),
             1 => {
                 let a = Array2::from_shape_fn((r, c), |(i, j)| self.da[order[i] * c + j].dual(self.a[order[i] * c + j].0));
                 let b = Array1::from_shape_fn(r, |i| self.db[order[i]].dual(self.b[order[i]].0));
-                sol_from_dual(&dsolve(&a.view(), &b.view(), self.lsq))
+                let (ha, hb) = (lay2(&a, l), lay1(&b, l));
+                sol_from_dual(&dsolve(&view2(&ha, l), &view1(&hb, l), self.lsq))
             }
             2 => {
                 let a = Array2::from_shape_fn((r, c), |(i, j)| self.da[order[i] * c + j].dual2(self.a[order[i] * c + j].0));
                 let b = Array1::from_shape_fn(r, |i| self.db[order[i]].dual2(self.b[order[i]].0));
-                sol_from_dual2(&dsolve(&a.view(), &b.view(), self.lsq))
+                let (ha, hb) = (lay2(&a, l), lay1(&b, l));
+                sol_from_dual2(&dsolve(&view2(&ha, l), &view1(&hb, l), self.lsq))
             }
             m @ (3 | 4) => {
                 let mk = |e: &Deriv, real: f64| -> Number {
@@ -419,16 +456,19 @@ impl Case {
                 };
                 let a = Array2::from_shape_fn((r, c), |(i, j)| mk(&self.da[order[i] * c + j], self.a[order[i] * c + j].0));
                 let b = Array1::from_shape_fn(r, |i| mk(&self.db[order[i]], self.b[order[i]].0));
-                sol_from_number(&dsolve(&a.view(), &b.view(), self.lsq))
+                let (ha, hb) = (lay2(&a, l), lay1(&b, l));
+                sol_from_number(&dsolve(&view2(&ha, l), &view1(&hb, l), self.lsq))
             }
-            5 => sol_from_f64(&fdsolve(&a_f.view(), &b_f.view(), self.lsq)),
+            5 => sol_from_f64(&fdsolve(&view2(&ha_f, l), &view1(&hb_f, l), self.lsq)),
             6 => {
                 let b = Array1::from_shape_fn(r, |i| self.db[order[i]].dual(self.b[order[i]].0));
-                sol_from_dual(&fdsolve(&a_f.view(), &b.view(), self.lsq))
+                let hb = lay1(&b, l);
+                sol_from_dual(&fdsolve(&view2(&ha_f, l), &view1(&hb, l), self.lsq))
             }
             _ => {
                 let b = Array1::from_shape_fn(r, |i| self.db[order[i]].dual2(self.b[order[i]].0));
-                sol_from_dual2(&fdsolve(&a_f.view(), &b.view(), self.lsq))
+                let hb = lay1(&b, l);
+                sol_from_dual2(&fdsolve(&view2(&ha_f, l), &view1(&hb, l), self.lsq))
             }
         }
     }
@@ -444,6 +484,7 @@ impl Property for C13 {
         let mut v = Verdict::new();
         const MODES: [&str; 8] = ["type:dsolve<f64>", "type:dsolve<Dual>", "type:dsolve<Dual2>", "type:dsolve<Number:Dual>", "type:dsolve<Number:Dual2>", "type:fdsolve<f64>", "type:fdsolve<Dual>", "type:fdsolve<Dual2>"];
         v.label(MODES[(c.mode % 8) as usize]);
+        v.label(["layout:row-major", "layout:column-major", "layout:strided"][(c.layout % 3) as usize]);
         v.label_if(c.lsq, "least-squares");
         let d = c.dense();
         // the square system actually solved: A itself or the normal equations
@@ -589,7 +630,7 @@ impl Property for C13 {
     }
 
     fn rule(&self) -> String {
-        "random systems: square 1-8 and tall up to 14x6 (least squares), real parts built as (unit lower, or identity) x (sparse upper with |diagonal| in [0.5,2]) with the rows shuffled so that zeros land on the diagonal and partial pivoting must swap (also in later columns); entries lifted to derivative content over 3 names with differing variable orders; element types dsolve::<f64|Dual|Dual2|Number> (Number mixes floats with one dual kind in A and b) and fdsolve with b of f64|Dual|Dual2. Oracle: the returned x, read by name, must satisfy A0 x0 = b0, A0 x_k + A_k x0 = b_k and A_kl x0 + A_k x_l + A_l x_k + A0 x_kl = b_kl (for least squares the same identities for A^T A x = A^T b) with residuals <= 1e-9 x cond x sum of absolute terms; solving the row-permuted system gives the same x. Draws with cond >= 1e6 are skipped and counted. Non-trivial: n >= 2, a row swap is needed, and a non-zero derivative is present.".into()
+        "random systems: square 1-8 and tall up to 14x6 (least squares), real parts built as (unit lower, or identity) x (sparse upper with |diagonal| in [0.5,2]) with the rows shuffled so that zeros land on the diagonal and partial pivoting must swap (also in later columns); A and b are handed over as row-major, column-major (transposed view, as numpy's A.T arrives) or strided views; entries lifted to derivative content over 3 names with differing variable orders; element types dsolve::<f64|Dual|Dual2|Number> (Number mixes floats with one dual kind in A and b) and fdsolve with b of f64|Dual|Dual2. Oracle: the returned x, read by name, must satisfy A0 x0 = b0, A0 x_k + A_k x0 = b_k and A_kl x0 + A_k x_l + A_l x_k + A0 x_kl = b_kl (for least squares the same identities for A^T A x = A^T b) with residuals <= 1e-9 x cond x sum of absolute terms; solving the row-permuted system gives the same x. Draws with cond >= 1e6 are skipped and counted. Non-trivial: n >= 2, a row swap is needed, and a non-zero derivative is present.".into()
     }
 
     fn floors(&self, tier: Tier) -> Vec<Floor> {
@@ -600,6 +641,8 @@ impl Property for C13 {
             Floor { label: "pivot:zero-on-diagonal", min: n / 10 },
             Floor { label: "least-squares", min: n / 10 },
             Floor { label: "row-permutation:checked", min: n / 3 },
+            Floor { label: "layout:column-major", min: n / 5 },
+            Floor { label: "layout:strided", min: n / 10 },
         ];
         for m in ["type:dsolve<f64>", "type:dsolve<Dual>", "type:dsolve<Dual2>", "type:dsolve<Number:Dual>", "type:dsolve<Number:Dual2>", "type:fdsolve<f64>", "type:fdsolve<Dual>", "type:fdsolve<Dual2>"] {
             f.push(Floor { label: m, min: n / 20 });
